@@ -11,18 +11,18 @@ Local Open Scope Z_scope.
    in [0,1], never increases when num_timesteps grows, 1 - num/total until the target and 0 beyond *)
 Theorem C12_progress_in_unit_interval : forall num total, 0 < total -> 0 <= num ->
   (0 <= progress_remaining num total <= 1)%Q.
-Proof. exact progress_range. Qed.
+Proof. exact frag_progress_range. Qed.
 Print Assumptions C12_progress_in_unit_interval.
 
 Theorem C12_progress_monotone : forall num num' total, 0 < total -> num <= num' ->
   (progress_remaining num' total <= progress_remaining num total)%Q.
-Proof. exact progress_monotone. Qed.
+Proof. exact frag_progress_monotone. Qed.
 Print Assumptions C12_progress_monotone.
 
 Theorem C12_progress_value : forall num total, 0 < total ->
   (num <= total -> (progress_remaining num total == 1 - inject_Z num / inject_Z total)%Q) /\
   (total <= num -> (progress_remaining num total == 0)%Q).
-Proof. exact (fun num total Ht => conj (progress_value num total Ht) (progress_exhausted num total Ht)). Qed.
+Proof. exact frag_progress_value. Qed.
 Print Assumptions C12_progress_value.
 
 (* along one learn(): the progress values at consecutive train() calls stay in [0,1] and never increase,
@@ -101,8 +101,8 @@ Theorem C12_frag_loop : forall num total n_envs k s ls gs ts,
    on_rollout_guard k s = (k <? s) /\ collect_more_step_unit k s = (k <? s) /\ collect_more_episode_unit k s = (k <? s)) /\
   train_event (OffPolicy ls gs) num ts =
     (if off_train_gate num ls && off_gradient_gate (off_gradient_steps gs ts) then [(num, off_gradient_steps gs ts)] else []) /\
-  progress_remaining num total = progress num total.
-Proof. exact (fun num total n_envs k s ls gs ts => conj (frag_guards num total n_envs k s) (conj (frag_train_event ls gs num ts) (frag_progress num total))). Qed.
+  (0 < total -> (progress_remaining num total == progress num total)%Q).
+Proof. exact (fun num total n_envs k s ls gs ts => conj (frag_guards num total n_envs k s) (conj (frag_train_event ls gs num ts) (frag_progress_eq num total))). Qed.
 Print Assumptions C12_frag_loop.
 
 Theorem C12_linear_schedule_ends : forall p s e f, (0 < f)%Q ->
